@@ -7,13 +7,21 @@ package main
 //	   reply: "err <msg>" or, per service, space separated records
 //	     svc <namehex>
 //	     item <namehex> <datahex> <projection>      one per embedded item (dictionary, acl, backend, director, init snippet)
-//	     scoped <scope> <namehex> <datahex> ok|perr one per scoped snippet (header rules, response objects, snippets)
+//	     scoped <scope> <namehex> <datahex> <sproj> <priority> <extra>
+//	                                                one per scoped snippet in the order of insertion (header rules, response
+//	                                                objects, VCL snippets); sproj = perr | ok:<hash of the comment-erased
+//	                                                statement trees>; extra = - | ro(<internal status>,<status>,<ctypehex>,<contenthex>)
+//	                                                for the error-scope part of a response object
+//	     include <namehex> <datahex> <sproj> <priority>   one per snippet of type none (by name)
+//	vclproj <hex>    ParseSnippetVCL of the text -> perr | ok:<hash>  (the same projection as sproj)
 //	   projection (no blanks) = perr | (table,<name>,<type|_>,(<keyhex>,<kind>,<valhex>)...) | (acl,<name>,(<0|1>,<iphex>,<mask|_>)...)
 //	              | (backend,<name>,(<prop>,<kind>,<valhex>)...) | (director,<name>,<type>,(b,<backend>)|(p,<key>,<val>)...) ... one group per declaration
 //	unescape <hex>   the literal between double quotes, through the real lexer + parser:
 //	                 set req.http.X = "<literal>";  ->  ok <hex of the decoded value> | perr
 import (
 	"bytes"
+	"crypto/sha256"
+	"reflect"
 	"encoding/hex"
 	"fmt"
 	"os"
@@ -123,6 +131,89 @@ func tfProject(data string) string {
 	return strings.Join(out, "")
 }
 
+// tfStmtProj: the statements of a snippet, comment-erased and position-free (inertDump), hashed
+func tfStmtProj(data string) string {
+	stmts, err := parser.New(lexer.NewFromString(data)).ParseSnippetVCL()
+	if err != nil {
+		return "perr"
+	}
+	var b strings.Builder
+	for _, st := range stmts {
+		inertDump(&b, reflect.ValueOf(st), 0)
+		b.WriteString(";")
+	}
+	sum := sha256.Sum256([]byte(b.String()))
+	return fmt.Sprintf("ok:%d:%s", len(stmts), hex.EncodeToString(sum[:8]))
+}
+
+// tfResponseObject: what the error-scope snippet of a response object says
+func tfResponseObject(data string) string {
+	stmts, err := parser.New(lexer.NewFromString(data)).ParseSnippetVCL()
+	if err != nil || len(stmts) != 1 {
+		return "-"
+	}
+	ifs, ok := stmts[0].(*ast.IfStatement)
+	if !ok || len(ifs.Another) != 0 || ifs.Alternative != nil {
+		return "-"
+	}
+	code := "?"
+	if c, ok := ifs.Condition.(*ast.InfixExpression); ok && c.Operator == "==" {
+		if l, ok := c.Left.(*ast.Ident); ok && l.Value == "obj.status" {
+			if r, ok := c.Right.(*ast.Integer); ok {
+				code = fmt.Sprint(r.Value)
+			}
+		}
+	}
+	status, ctype, content := "?", "?", "?"
+	shape := ""
+	for _, st := range ifs.Consequence.Statements {
+		switch t := st.(type) {
+		case *ast.SetStatement:
+			shape += "s"
+			if t.Operator == nil || t.Operator.Operator != "=" {
+				return "-"
+			}
+			switch t.Ident.Value {
+			case "obj.status":
+				if v, ok := t.Value.(*ast.Integer); ok {
+					status = fmt.Sprint(v.Value)
+				}
+			case "obj.http.Content-Type":
+				if v, ok := t.Value.(*ast.String); ok {
+					ctype = tfHex(v.Value)
+				}
+			default:
+				return "-"
+			}
+		case *ast.SyntheticStatement:
+			shape += "y"
+			if v, ok := t.Value.(*ast.String); ok {
+				content = tfHex(v.Value)
+			}
+		case *ast.ReturnStatement:
+			shape += "r"
+		default:
+			return "-"
+		}
+	}
+	if shape != "ssyr" {
+		return "-"
+	}
+	return fmt.Sprintf("ro(%s,%s,%s,%s)", code, status, ctype, content)
+}
+
+func vclprojHandler(args string) string {
+	arg := strings.TrimSpace(args)
+	if arg == "-" {
+		arg = ""
+	}
+	buf, err := hex.DecodeString(arg)
+	if err != nil {
+		return "badreq"
+	}
+	return tfStmtProj(string(buf))
+}
+
 func tfHandler(args string) string {
 	buf, err := hex.DecodeString(strings.TrimSpace(args))
 	if err != nil {
@@ -168,12 +259,21 @@ func tfHandler(args string) string {
 				continue
 			}
 			for _, it := range snips.ScopedSnippets[sc] {
-				ok := "ok"
-				if _, err := parser.New(lexer.NewFromString(it.Data)).ParseSnippetVCL(); err != nil {
-					ok = "perr"
+				extra := "-"
+				if sc == "error" && strings.HasPrefix(it.Name, "Remote.ResponseObject:") {
+					extra = tfResponseObject(it.Data)
 				}
-				out = append(out, fmt.Sprintf("scoped %s %s %s %s", sc, tfHex(it.Name), tfHex(it.Data), ok))
+				out = append(out, fmt.Sprintf("scoped %s %s %s %s %d %s", sc, tfHex(it.Name), tfHex(it.Data), tfStmtProj(it.Data), it.Priority, extra))
 			}
+		}
+		var incl []string
+		for n := range snips.IncludeSnippets {
+			incl = append(incl, n)
+		}
+		sort.Strings(incl)
+		for _, n := range incl {
+			it := snips.IncludeSnippets[n]
+			out = append(out, fmt.Sprintf("include %s %s %s %d", tfHex(n), tfHex(it.Data), tfStmtProj(it.Data), it.Priority))
 		}
 	}
 	return strings.Join(out, " ")
@@ -207,4 +307,5 @@ func unescapeHandler(args string) string {
 func init() {
 	register("tf", tfHandler)
 	register("unescape", unescapeHandler)
+	register("vclproj", vclprojHandler)
 }
